@@ -284,7 +284,8 @@ func genStep(rt *rapid.T, p *Profile, cfg *Config, i int) Step { //nolint:cyclop
 			st.TxFrom = rapid.IntRange(1, nc).Draw(rt, "txFromC")
 		}
 	case "Sleep":
-		st.Rel = rapid.SampledFrom([]string{"", "", "alloc-", "alloc+", "perm-", "perm+", "chan-", "chan+", "alloc-", "alloc+"}).Draw(rt, "rel")
+		st.Rel = rapid.SampledFrom([]string{"", "", "alloc-", "alloc+", "perm-", "perm+", "chan-", "chan+", "alloc-", "alloc+",
+			"perm^", "perm~", "chan^", "chan~", "alloc^", "alloc~"}).Draw(rt, "rel")
 		if st.Rel == "" {
 			st.N = rapid.OneOf(rapid.IntRange(1, 120), rapid.IntRange(1, 4000), rapid.SampledFrom([]int{1, 29, 30, 31, 59, 60, 61, 299, 300, 301, 599, 600, 601, 3600, 3660, 3720})).Draw(rt, "secs")
 		} else {
@@ -372,14 +373,22 @@ func genFragment(rt *rapid.T, p *Profile, cfg *Config) []Step {
 	case "perm":
 		pt := int(cfg.permTimeout().Seconds())
 		out = append(out, Step{Op: "CreatePermission", C: c, P: []int{peer}, Life: -1}, part(pt))
-		if rapid.IntRange(0, 1).Draw(rt, "fviaBind") == 0 {
+		switch rapid.IntRange(0, 3).Draw(rt, "fviaBind") {
+		case 0:
 			out = append(out, Step{Op: "CreatePermission", C: c, P: []int{peer}, Life: -1})
-		} else {
+		case 1:
+			// several peers in one request; the probed one is not the first
+			out = append(out, Step{Op: "CreatePermission", C: c, P: []int{peer2, peer2, peer}, Life: -1})
+		default:
 			out = append(out, Step{Op: "ChannelBind", C: c, P: []int{peer}, Ch: ch, Life: -1})
 		}
+		before, after := "perm-", "perm+"
+		if rapid.IntRange(0, 2).Draw(rt, "fedge") == 0 {
+			before, after = "perm^", "perm~" // half a clock tick on either side of the deadline
+		}
 		out = append(out,
-			Step{Op: "Sleep", C: c, Rel: "perm-", P: []int{peer}, N: margin, Life: -1}, data("Send"), data("PeerData"),
-			Step{Op: "Sleep", C: c, Rel: "perm+", P: []int{peer}, N: margin, Life: -1}, data("Send"), data("PeerData"))
+			Step{Op: "Sleep", C: c, Rel: before, P: []int{peer}, N: margin, Life: -1}, data("Send"), data("PeerData"),
+			Step{Op: "Sleep", C: c, Rel: after, P: []int{peer}, N: margin, Life: -1}, data("Send"), data("PeerData"))
 	case "chan":
 		ct := int(cfg.chanTimeout().Seconds())
 		out = append(out, Step{Op: "ChannelBind", C: c, P: []int{peer}, Ch: ch, Life: -1, RespLost: rapid.IntRange(0, 3).Draw(rt, "flost") == 0}, part(ct),
